@@ -8,7 +8,7 @@ import sys
 
 VERIF = os.path.dirname(os.path.dirname(os.path.abspath(__file__)))
 REPO_S, COQ_S = "/tmp/gencode9_repo", "/tmp/gencode9_coq"
-OWN = ["gen/GenCode9.v", "Proofs/GenCode9Ok.v", "Props/C08Code.v"]
+OWN = ["gen/GenCode9.v", "Proofs/GenCode9Ok.v", "Proofs/GenCode9Expr.v", "Props/C08Code.v"]
 CASES = [("control", None, "prove")] + \
     [(r, os.path.join(VERIF, "notes/refactors", r + ".diff"), "prove") for r in ("R5", "S4", "S5")] + \
     [(s, os.path.join(VERIF, "seeded", s, "patch.diff"), "fail") for s in (
